@@ -4,10 +4,11 @@ CONSTANTS
   MaxOut = 3
   MaxKern = 2
   Vals = {0, 1, 2, 3}
-  Blinds = {1, 2, 3}
+  NBlind = 3
+  RPatterns <- Pat1
   Fees = {1, 2}
   Offsets <- OffsetsC
-  Splits <- SplitsC
+  Splits <- SplitsSmall
   PrevOffsets = {0, 1}
-  MaxCorrupt = 0
+  MaxCorrupt = 1
 INVARIANTS ValidImpliesNoValueCreated BasesAreValid SingleCorruptionRefused RefusedConservingIsStructural
